@@ -13,3 +13,5 @@ FUNCTIONS = [
     'lentil.field.reduce#1', 'lentil.field.reduce#2', 'lentil.field.reduce#3',
 ]
 LEMMAS = []
+
+SHARDS = {'lentil.field.insert': 4, 'lentil.field.reduce#3': 2}
